@@ -6,8 +6,8 @@ WT=$1; NAME=$2; shift 2
 DEMO=$(grep -m1 "^DEMO:" $WT/_seeded/README.md | sed 's/^DEMO: *//; s/^`//; s/`$//')
 git -C $WT checkout -- src apps 2>/dev/null
 b() { cmake -G Ninja -B $WT/_work/build $WT >/dev/null 2>&1 && cmake --build $WT/_work/build >/dev/null 2>&1; }
-for kind in patch benign; do
-  [ -f $WT/_seeded/$kind.diff ] || { echo "$kind.diff MISSING"; continue; }
+for kind in patch benign benign2; do
+  [ -f $WT/_seeded/$kind.diff ] || { [ $kind = benign2 ] || echo "$kind.diff MISSING"; continue; }
   git -C $WT apply $WT/_seeded/$kind.diff || { echo "$kind APPLY-FAILED"; continue; }
   git -C $WT diff --stat -- src apps | tail -1
   b || echo "$kind BUILD-FAILED"
@@ -19,4 +19,6 @@ b; ( eval "$DEMO" ) > /tmp/demo_orig.out 2>&1; echo "demo rc(original)=$?"
 mkdir -p /verif/seeded/$NAME && cp $WT/_seeded/* /verif/seeded/$NAME/
 cd /verif
 echo "--- breaking change vs $*"; tools/seeded_run.sh /verif/seeded/$NAME/patch.diff "$@"
-if [ -f /verif/seeded/$NAME/benign.diff ]; then echo "--- benign change vs $* (must stay silent)"; tools/seeded_run.sh /verif/seeded/$NAME/benign.diff "$@"; fi
+for b in benign benign2; do
+  if [ -f /verif/seeded/$NAME/$b.diff ]; then echo "--- $b change vs $* (must stay silent)"; tools/seeded_run.sh /verif/seeded/$NAME/$b.diff "$@"; fi
+done
